@@ -43,9 +43,17 @@ func (p *Provider[A]) SetAmmos(ammos []A) {
 	p.ammos = ammos
 }
 
-func (p *Provider[A]) Run(ctx context.Context, deps core.ProviderDeps) error {
+func (p *Provider[A]) Run(ctx context.Context, deps core.ProviderDeps) (err error) {
 	const op = "scenario.Provider.Run"
 	p.Deps = deps
+	defer func() {
+		// Consumers should get out of ammo, when limit is reached or provider is stopped.
+		close(p.sink)
+		// Reached limit is normal finish.
+		if errors.Is(err, decoders.ErrPassLimit) || errors.Is(err, decoders.ErrAmmoLimit) {
+			err = nil
+		}
+	}()
 
 	length := uint(len(p.ammos))
 	if length == 0 {
